@@ -29,9 +29,13 @@ func TestVerifC13Enum(t *testing.T) {
 			{K: "sync", Slot: 0, Ident: "stale", Pick: 0},
 		},
 		Names: []string{"J0", "J1", "L0", "+4s", "+11s", "C0", "C0first", "C1first", "H0first", "S0first"},
-		Depth: r.N(4, 6),
+		Depth: r.N(3, 5),
+		Preambles: map[string][]gOp{
+			"empty":   nil,
+			"stable2": {{K: "join", Slot: 0, Sub: sub}, {K: "join", Slot: 1, Sub: sub}, {K: "settle"}},
+		},
 	}
-	defer r.Finish(fmt.Sprintf("bounded-exhaustive: ALL %d sequences of length %d (hence every shorter one as a prefix) over the alphabet %v for 2 members are run on the real coordinator on virtual time and judged by the C13 observer of leg 'group' ('first' = the request carries the first (member id, generation) pair that member was ever told, which is stale as soon as the group has moved on). non-trivial = sequence in which a formerly valid identity was rejected and a current member's commit was accepted", spec.total(), spec.Depth, spec.Names))
+	defer r.Finish(fmt.Sprintf("bounded-exhaustive: ALL %d sequences of length %d (hence every shorter one as a prefix) over the alphabet %v, started from the empty group and from a settled Stable group of 2 members, are run on the real coordinator on virtual time and judged by the C13 observer of leg 'group' ('first' = the request carries the first (member id, generation) pair that member was ever told, which is stale as soon as the group has moved on). non-trivial = sequence in which a formerly valid identity was rejected and a current member's commit was accepted", spec.total(), spec.Depth, spec.Names))
 	var cur *c13Obs
 	gEnumerate(t, spec, func(seq string) []gObserver {
 		cur = &c13Obs{r: r, model: map[c13Key]int64{{"ta", 0}: 0}, removedBy: map[string]string{}}
@@ -49,6 +53,6 @@ func TestVerifC13Enum(t *testing.T) {
 	})
 	r.Exhaustive(true)
 	r.Note("sequences", spec.total())
-	r.Floor("stale_requests_rejected", 1000)
-	r.Floor("stale_requests_from_formerly_valid_identity_rejected", 100)
+	r.Floor("stale_requests_rejected", 500)
+	r.Floor("stale_requests_from_formerly_valid_identity_rejected", int64(r.N(50, 5000)))
 }
